@@ -6,6 +6,7 @@ import (
 	"context"
 	"crypto/ecdsa"
 	"crypto/tls"
+	"encoding/asn1"
 	"encoding/base64"
 	"encoding/json"
 	"encoding/pem"
@@ -508,7 +509,7 @@ func newHolders(dir string) ([]holder, error) {
 
 	conf := vkit.DefaultConf()
 	conf.Prototypes.Authenticators = []config.Mechanism{{ID: "anon", Type: "anonymous"}}
-	conf.Prototypes.Finalizers = []config.Mechanism{{ID: "jwt", Type: "jwt", Config: config.MechanismConfig{"signer": map[string]any{"key_store": map[string]any{"path": p1}}, "ttl": "3s"}}}
+	conf.Prototypes.Finalizers = []config.Mechanism{{ID: "jwt", Type: "jwt", Config: config.MechanismConfig{"signer": map[string]any{"key_store": map[string]any{"path": p1, "password": "secret"}}, "ttl": "3s"}}}
 
 	// 3. http message signatures strategy (endpoint authentication of a contextualizer)
 	p3 := filepath.Join(dir, "httpsig.pem")
@@ -518,7 +519,7 @@ func newHolders(dir string) ([]holder, error) {
 
 	conf.Prototypes.Contextualizers = []config.Mechanism{{ID: "ctx", Type: "generic", Config: config.MechanismConfig{
 		"endpoint": map[string]any{"url": remote.URL() + "/ctx", "auth": map[string]any{"type": "http_message_signatures", "config": map[string]any{
-			"signer": map[string]any{"key_store": map[string]any{"path": p3}}, "components": []any{"@method"}}}},
+			"signer": map[string]any{"key_store": map[string]any{"path": p3, "password": "secret"}}, "components": []any{"@method"}}}},
 		"payload": "x", "cache_ttl": "0s"}}}
 
 	w, err := vkit.NewWorld(vkit.WorldOpts{Conf: conf})
@@ -618,7 +619,7 @@ func newHolders(dir string) ([]holder, error) {
 
 	rw := &vkit.RecWatcher{}
 
-	tlsCfg, err := tlsx.ToTLSConfig(&config.TLS{KeyStore: config.KeyStore{Path: p2}}, tlsx.WithServerAuthentication(true), tlsx.WithSecretsWatcher(rw))
+	tlsCfg, err := tlsx.ToTLSConfig(&config.TLS{KeyStore: config.KeyStore{Path: p2, Password: "secret"}}, tlsx.WithServerAuthentication(true), tlsx.WithSecretsWatcher(rw))
 	if err != nil {
 		return nil, err
 	}
@@ -701,7 +702,7 @@ func TestKeyStoreReloadsAreRejectedNotFatal(t *testing.T) {
 
 	rapid.Check(t, func(t *rapid.T) {
 		h := hs[rapid.IntRange(0, len(hs)-1).Draw(t, "holder")]
-		kind := rapid.SampledFrom([]string{"empty", "certs-only", "unsupported-key", "truncated", "blocks-dropped", "blocks-reordered", "garbage", "bitflip", "valid-other", "encrypted-without-password", "duplicate-key", "blocks-duplicated", "blocks-edited", "blocks-edited", "cyclic-issuers", "usable-then-unsupported-key", "usable-then-unsupported-key"}).Draw(t, "kind")
+		kind := rapid.SampledFrom([]string{"empty", "certs-only", "unsupported-key", "truncated", "blocks-dropped", "blocks-reordered", "garbage", "bitflip", "valid-other", "encrypted-without-password", "duplicate-key", "blocks-duplicated", "blocks-edited", "blocks-edited", "cyclic-issuers", "usable-then-unsupported-key", "usable-then-unsupported-key", "encrypted-key-edited"}).Draw(t, "kind")
 
 		var content []byte
 
@@ -712,6 +713,10 @@ func TestKeyStoreReloadsAreRejectedNotFatal(t *testing.T) {
 			content = append(vkit.ReadFixture("ecp256.cert.pem"), vkit.ReadFixture("intermediate.cert.pem")...)
 		case "unsupported-key":
 			content = vkit.ReadFixture(rapid.SampledFrom([]string{"rsa1024.key.pem", "rsa1024.pkcs1.key.pem", "ecp224.key.pem", "ed25519.key.pem"}).Draw(t, "keyFile"))
+		case "encrypted-key-edited":
+			// an encrypted PKCS#8 key (PBES2, AES-256-CBC; the holders know its password) whose encrypted data or parameters
+			// are not what they should be, in a document which is still well-formed DER
+			content = editedEncryptedKey(t)
 		case "usable-then-unsupported-key":
 			// one to three usable keys, followed by one which is not (a key store is used as a whole or not at all)
 			good := rapid.SliceOfNDistinct(rapid.SampledFrom([]string{"ecp256b", "ecp384", "rsa2048", "rsa3072"}), 1, 3, rapid.ID[string]).Draw(t, "usableKeys")
@@ -1100,4 +1105,102 @@ func TestTokenEndpointAnswersToTheRuleProvider(t *testing.T) {
 			t.Fatalf("previously loaded rules are gone")
 		}
 	})
+}
+
+// editedEncryptedKey: EncryptedPrivateKeyInfo ::= SEQUENCE { encryptionAlgorithm AlgorithmIdentifier, encryptedData OCTET STRING }
+func editedEncryptedKey(t *rapid.T) []byte {
+	block, _ := pem.Decode(vkit.ReadFixture("ecp256.encrypted.key.pem"))
+
+	var info struct {
+		Algo asn1.RawValue
+		Data []byte
+	}
+
+	if _, err := asn1.Unmarshal(block.Bytes, &info); err != nil {
+		panic(err)
+	}
+
+	switch rapid.SampledFrom([]string{"intact", "one byte less", "one byte more", "empty", "one block less", "15 bytes", "iv shortened", "iv emptied", "salt emptied"}).Draw(t, "edit") {
+	case "one byte less":
+		info.Data = info.Data[:len(info.Data)-1]
+	case "one byte more":
+		info.Data = append(info.Data, 0)
+	case "empty":
+		info.Data = nil
+	case "one block less":
+		info.Data = info.Data[:len(info.Data)-16]
+	case "15 bytes":
+		info.Data = info.Data[:15]
+	case "iv shortened", "iv emptied", "salt emptied":
+		// the parameters are nested sequences; the 16 byte IV and the 16 byte salt are the only OCTET STRINGs of that length
+		raw := append([]byte(nil), info.Algo.FullBytes...)
+		edit := rapid.SampledFrom([]string{"iv shortened", "iv emptied", "salt emptied"}).Draw(t, "parameterEdit")
+		nth := 1 // the salt comes first
+
+		if edit != "salt emptied" {
+			nth = 2
+		}
+
+		if r, ok := shrinkOctetString(raw, nth, edit != "iv shortened"); ok {
+			info.Algo = asn1.RawValue{FullBytes: r}
+		}
+	}
+
+	der, err := asn1.Marshal(info)
+	if err != nil {
+		panic(err)
+	}
+
+	return pem.EncodeToMemory(&pem.Block{Type: "ENCRYPTED PRIVATE KEY", Bytes: der})
+}
+
+// shrinkOctetString re-encodes a DER value with its nth 16 byte OCTET STRING (in document order) shortened by one byte or
+// emptied; the lengths of the enclosing values are adjusted.
+func shrinkOctetString(der []byte, nth int, empty bool) ([]byte, bool) {
+	seen := 0
+
+	var walk func(raw []byte) []byte
+
+	walk = func(raw []byte) []byte {
+		var out []byte
+
+		for len(raw) != 0 {
+			var v asn1.RawValue
+
+			rest, err := asn1.Unmarshal(raw, &v)
+			if err != nil {
+				return append(out, raw...)
+			}
+
+			raw = rest
+
+			switch {
+			case v.IsCompound:
+				v.Bytes = walk(v.Bytes)
+			case v.Class == asn1.ClassUniversal && v.Tag == asn1.TagOctetString && len(v.Bytes) == 16:
+				if seen++; seen == nth {
+					if empty {
+						v.Bytes = nil
+					} else {
+						v.Bytes = v.Bytes[:15]
+					}
+				}
+			}
+
+			v.FullBytes = nil
+
+			enc, err := asn1.Marshal(v)
+			if err != nil {
+				panic(err)
+			}
+
+			out = append(out, enc...)
+		}
+
+		return out
+	}
+
+	res := walk(der)
+
+	return res, seen >= nth
 }
